@@ -105,11 +105,16 @@ class Harness:
         it, ctx = self.it, self.ctx
         mod = it.repo_module("dataiter/list_of_dicts.py")
         cls = it.class_obj(mod.classes["ListOfDicts"])
+        # attribute set as the real constructor leaves it; attributes this harness does not know get an
+        # arbitrary value (any state a list may have been left in by earlier calls)
+        probe = it.instantiate(cls, [], {})
         obj = Instance(ctx, cls, base=self.item_seq(name))
-        obj.attrs["_group_keys"] = group_keys
-        obj.attrs["_obsolete"] = ctx.fresh(name + "_obsolete", BOOL)
-        obj.attrs["_obsolete_warned"] = ctx.fresh(name + "_warned", BOOL)
-        obj.attrs["_predecessor"] = None
+        known = {"_group_keys": group_keys, "_obsolete": ctx.fresh(name + "_obsolete", BOOL),
+                 "_obsolete_warned": ctx.fresh(name + "_warned", BOOL), "_predecessor": None}
+        for a, v in probe.attrs.items():
+            obj.attrs[a] = known[a] if a in known else ctx.fresh(name + "_attr_" + a.strip("_"), V)
+        for a, v in known.items():
+            obj.attrs.setdefault(a, v)
         return obj
 
     def snapshot_heap(self):
@@ -178,7 +183,9 @@ def verify(contract_cls, repo=None, timeout_ms=None):
             cx.old = {"heap": dict(ctx.heap)}
             cx.initial_obsolete = self_obj.attrs.get("_obsolete") if isinstance(self_obj, Instance) and "attrs" in ctx.store.get(self_obj.id, {}) else None
             try:
-                if inputs.get("setter"):
+                if getattr(c, "lemma_only", False):
+                    result = None       # a spec-level lemma: nothing of the repository is executed
+                elif inputs.get("setter"):
                     result = it.setattr(self_obj, c.qualname.split(".")[1], args[0])
                 elif self_obj is not None:
                     if isinstance(self_obj, ClassObj):
